@@ -83,6 +83,8 @@ type objRT struct {
 	stopFailed  bool               // a stop call returned an error: the object is not restarted (known finding C09 WaitGroup reuse)
 	stopIdle    chan struct{}      // closed when the last in-progress stop call returns
 	startCancel context.CancelFunc // cancels the context passed to the last Start
+	pendingCancels map[int]context.CancelFunc // contexts of Start calls that have not returned yet
+	pendingSeq     int
 	inStop      int
 	stopped     bool
 	delDepth    int
@@ -199,6 +201,9 @@ func (s *Sim) registerCallbacks(o *objRT) {
 					}
 				}
 			}
+			if sp.Promote != 0 && sp.PromoteLinger > 0 && ctx.Err() != nil {
+				s.sleepI(sp.PromoteLinger)
+			}
 		})
 		o.el.OnDemote(func() { s.sleepI(sp.DemoteDur) })
 		return
@@ -232,6 +237,9 @@ func (s *Sim) registerCallbacks(o *objRT) {
 				}
 			}
 		}
+		if sp.Promote != 0 && sp.PromoteLinger > 0 && ctx.Err() != nil {
+			s.sleepI(sp.PromoteLinger) // winding down
+		}
 		s.mu.Lock()
 		term.Exited = true
 		term.ExitT = s.now()
@@ -243,9 +251,14 @@ func (s *Sim) registerCallbacks(o *objRT) {
 	o.el.OnDemote(func() {
 		s.mu.Lock()
 		o.d++
-		done := -1
+		// the k-th OnDemote of an election ends its k-th term (when a Start overlapped a stop call, the next
+		// term may have begun before the OnDemote of the stopped one is delivered)
+		done, k := -1, 0
 		for _, t := range s.tr.Terms {
 			if t.Obj == o.idx {
+				if k++; k > o.d {
+					break
+				}
 				done = 0
 				if t.Ctx.Err() != nil {
 					done = 1
@@ -334,7 +347,7 @@ func (s *Sim) doAction(a *Action) {
 		if o != nil {
 			// wait for in-progress stop calls first (see below), then decide
 			waited := false
-			for {
+			for !a.Overlap {
 				s.mu.Lock()
 				ch := o.stopIdle
 				busy := o.inStop > 0
@@ -394,7 +407,7 @@ func (s *Sim) doAction(a *Action) {
 		}
 		// Lifecycle calls of real callers are sequential per election: Start is
 		// not issued while a stop call on the same object has not returned yet.
-		for {
+		for !a.Overlap {
 			s.mu.Lock()
 			ch := o.stopIdle
 			busy := o.inStop > 0
@@ -425,8 +438,19 @@ func (s *Sim) doAction(a *Action) {
 				break
 			}
 		}
+		// a cancellation that arrives while this Start is under way is the caller cancelling this context too
+		// (the stop bookkeeping below counts such a stop as taking effect after this Start)
+		s.mu.Lock()
+		if o.pendingCancels == nil {
+			o.pendingCancels = map[int]context.CancelFunc{}
+		}
+		o.pendingSeq++
+		pid := o.pendingSeq
+		o.pendingCancels[pid] = scancel
+		s.mu.Unlock()
 		err := o.el.Start(sctx)
 		s.mu.Lock()
+		delete(o.pendingCancels, pid)
 		if err == nil {
 			// a stop call that began while this Start was under way (fired from one of Start's own log lines)
 			// takes effect after it: the object is then being stopped, not started
@@ -473,10 +497,22 @@ func (s *Sim) doAction(a *Action) {
 			// and its OnDemote (if it led) has returned; the state it is left in is FOLLOWER (the pinned suite's
 			// TestWatcherStopsOnContextCancel demands that of a cancelled follower), not STOPPED
 			s.mu.Lock()
-			cancelStart = o.startCancel
+			last := o.startCancel
+			var pend []context.CancelFunc
+			for _, c := range o.pendingCancels {
+				pend = append(pend, c)
+			}
 			s.mu.Unlock()
-			if cancelStart == nil {
+			if last == nil && len(pend) == 0 {
 				return
+			}
+			cancelStart = func() {
+				if last != nil {
+					last()
+				}
+				for _, c := range pend {
+					c()
+				}
 			}
 			if a.NoWait {
 				r := s.apiBegin(o, "CancelStartContext", a)
@@ -836,16 +872,16 @@ func (s *Sim) teardown() {
 	s.mu.Unlock()
 	var stopWG sync.WaitGroup
 	for _, o := range objs {
-		s.mu.Lock()
-		need := !o.stopped
-		s.mu.Unlock()
-		if need {
-			stopWG.Add(1)
-			go func(o *objRT) {
-				defer stopWG.Done()
-				_ = o.el.Stop()
-			}(o)
+		// every object, whatever the bookkeeping says: when a Start and a stop call overlapped, which of the
+		// two took effect last is the library's business (Stop on a stopped election is a no-op)
+		if o.el == nil {
+			continue
 		}
+		stopWG.Add(1)
+		go func(o *objRT) {
+			defer stopWG.Done()
+			_ = o.el.Stop()
+		}(o)
 	}
 	close(s.teardownCh) // releases timed-out requests, blocked callbacks, delayed deliveries
 	time.Sleep(7 * time.Second)
